@@ -45,7 +45,8 @@ pub struct ServerCfg {
     /// value written into the TargetInfo and TargetName MaxLen fields instead of their Len (receivers ignore MaxLen)
     pub maxlen_override: Option<u16>,
     /// payload layout: 0 = TargetName then TargetInfo (Windows), 1 = TargetInfo then TargetName, 2 = name, info, then 12
-    /// bytes that no field refers to, 3 = 8 unreferenced bytes between the header and the name
+    /// bytes that no field refers to, 3 = 8 unreferenced bytes between the header and the name, 4 / 5 = no target name and a
+    /// zeroed / stale TargetName descriptor (only with REQUEST_TARGET clear: MUST be ignored on receipt)
     pub layout: u8,
 }
 
@@ -89,11 +90,17 @@ pub fn challenge_message(cfg: &ServerCfg) -> Vec<u8> {
         1 => (hdr + ti.len() as u32, hdr, [ti.clone(), tn.clone()].concat()),
         2 => (hdr, hdr + tn.len() as u32, [tn.clone(), ti.clone(), b"SERVERPAD\0\0\0".to_vec()].concat()),
         3 => (hdr + 8, hdr + 8 + tn.len() as u32, [vec![0xEE; 8], tn.clone(), ti.clone()].concat()),
+        // 4 / 5: no target name (the caller clears REQUEST_TARGET): the descriptor is zeroed / holds stale values
+        4 | 5 => (0, hdr, ti.clone()),
         _ => (hdr, hdr + tn.len() as u32, [tn.clone(), ti.clone()].concat()),
     };
     let mut w = W::new();
     w.bytes(b"NTLMSSP\0").u32le(2);
-    w.u16le(tn.len() as u16).u16le(cfg.maxlen_override.unwrap_or(tn.len() as u16)).u32le(tn_off);
+    match cfg.layout {
+        4 => w.u16le(0).u16le(0).u32le(0),
+        5 => w.u16le(0x20).u16le(0x20).u32le(0x4000),
+        _ => w.u16le(tn.len() as u16).u16le(cfg.maxlen_override.unwrap_or(tn.len() as u16)).u32le(tn_off),
+    };
     w.u32le(cfg.flags);
     w.bytes(&cfg.challenge);
     w.zeros(8);
